@@ -469,6 +469,9 @@ func (m *Dev) notePress(hk heldKey, kd *KeyDesc, got []Msg) *Violation {
 		props := []string{"C03"}
 		if n == 0 {
 			props = []string{"C04"}
+			if m.D.Mode != "off" && len(got) != 1 {
+				props = append(props, "C03") // acts as if somebody held the pitch: collision bookkeeping
+			}
 			if m.PanicSeen {
 				props = append(props, "C13")
 			}
@@ -521,10 +524,18 @@ func (m *Dev) noteRelease(hk heldKey, got []Msg) *Violation {
 		}
 		return nil
 	}
+	if want == "F" && len(got) == 0 && !m.Recv.Sounding[pr] {
+		// the pair was already silenced (panic / All Notes Off): the release's Note Off would only be
+		// redundant ("at most a redundant Note Off"), leaving it out is harmless
+		m.probe("release_after_silencing_without_off")
+		return nil
+	}
 	if kinds(got) != want {
 		props := []string{"C02"}
 		if m.everMany[pr] {
 			props = []string{"C03"}
+		} else if m.D.Mode != "off" {
+			props = append(props, "C03") // the shape of a release in a managed mode is collision bookkeeping
 		}
 		if want == "F" && len(got) == 0 {
 			props = append(props, "C01")
@@ -662,6 +673,29 @@ func (m *Dev) Unplug(got []Msg) *Violation {
 		m.Recv.Apply(g)
 		if g.Kind == 'N' && g.B > 0 {
 			return viol("unplug_starts_note", fmt.Sprintf("disconnect clean-up emitted %s", g), "C01")
+		}
+	}
+	if m.D.Mode != "off" {
+		for pr, n := range m.Holders {
+			if n <= 0 {
+				continue
+			}
+			cnt := 0
+			for _, g := range got {
+				if g.Kind == 'F' && g.Ch == pr.Ch && g.A == pr.Pitch {
+					cnt++
+				}
+			}
+			// key-emulating axes share no bookkeeping with keys; only pitches held by keys alone are judged
+			axisToo := false
+			for _, a := range m.axes {
+				if a.pair != nil && *a.pair == pr {
+					axisToo = true
+				}
+			}
+			if cnt > 1 && !axisToo {
+				return viol("unplug_off_count", fmt.Sprintf("mode %s: ch%d:%d was held by %d keys at disconnect, the clean-up sent %d Note Offs for it (exactly one is sent for a shared pitch)", m.D.Mode, pr.Ch, pr.Pitch, n, cnt), "C03")
+			}
 		}
 	}
 	if len(m.Recv.Sounding) > 0 {
